@@ -11,7 +11,7 @@ S5.6 every element is evaluated, in order: both recursive evaluators run one for
      the operator afterwards to all collected values (the C08 evaluator rule, reported here because `;` "evaluates all its elements").
 Not decided: tree equality for all mixed `,`/`;` programs (a run-time property of the root_stack algorithm)."""
 import tables
-from absint import Interp, SYM, C, ADT, OK, ERR, Fork, fmt, is_adt, Budget
+from absint import Interp, SYM, C, ADT, OK, ERR, Fork, fmt, is_adt, Budget, has_subterm, apps
 from rules.treepaths import sequence_branch_paths, opaque_hook, calls_of, branches_of, is_true, seed
 from rules.common import safe_tables
 
@@ -208,16 +208,16 @@ def s52(ctx, prog, T):
                 continue
             nm = e[0].split('::')[-1]
             a = e[2]
-            if nm == 'push' and len(a) == 2 and a[0][0] == 'proj' and a[0][2][-1:] == ('children',) and 'pop' in fmt(a[0]):
+            if nm == 'push' and len(a) == 2 and a[0][0] == 'proj' and a[0][2][-1:] == ('children',) and any(n_.split('::')[-1].split('#')[0] in ('pop', 'last', 'last_mut') and x_ and x_[0] == SYM('root_stack') for n_, x_ in apps(a[0])):
                 # absorb step: children of a node popped from the stack
                 n += 1
                 popped = a[0][1] if len(a[0][2]) == 1 else ('proj', a[0][1], a[0][2][:-1])
                 guard = None
                 for v, taken in seen_br:
                     s = fmt(v)
-                    if s.startswith('is_sequence(') and fmt(popped) in s and is_true(taken):
+                    if s.startswith('is_sequence(') and has_subterm(v, popped) and is_true(taken):
                         guard = 'explicit is_sequence() guard on the popped node'
-                    if 'Operator::RootNode' in s and fmt(popped) in s and (('::ne' in s and is_true(taken)) or ('::eq' in s and not is_true(taken))):
+                    if 'Operator::RootNode' in s and has_subterm(v, popped) and (('::ne' in s and is_true(taken)) or ('::eq' in s and not is_true(taken))):
                         guard = 'explicit `!= RootNode` guard on the popped node'
                 if guard is None:
                     # accepted idiom 2: the precedence comparison alone excludes every non-sequence kind that can sit on the stack
@@ -264,7 +264,7 @@ def s52(ctx, prog, T):
             a = e[2]
             if nm == 'push' and len(a) == 2 and a[0][0] == 'proj' and a[0][2][-1:] == ('children',):
                 m += 1
-                okk = any(fmt(v).startswith('is_sequence(') and fmt(a[1]) in fmt(v) and is_true(taken) for v, taken in seen_br)
+                okk = any(fmt(v).startswith('is_sequence(') and has_subterm(v, a[1]) and is_true(taken) for v, taken in seen_br)
                 ctx.check(okk, 'S5.2', 'collapse_all_sequences:absorb', 'unguarded', 'a node is absorbed into the next stack entry only when it is a sequence (is_sequence() on the absorbed node)', span=e[3])
     ctx.floor('S5.2', 'collapse_all_absorb_steps', m, 1)
 
